@@ -334,6 +334,9 @@ impl<K: KeyT> World<K> {
                         let _ = is_rodeo && full;
                         if stat.is_some() || x.is_empty() {
                             self.fail("C08", "static-or-empty-memory-error", format!("memory error{via_tag} for a static/empty string"));
+                            if !full {
+                                self.fail("C07", "spurious-memory-error", format!("interning{via_tag} a static/empty string failed with MemoryLimitReached: it needs no memory, and {before_len} of {n_cap} keys are in use"));
+                            }
                         }
                         // the budget really in use is the bytes of the blocks held (the block audit), not
                         // what the counter says: a counter that over-reports must not excuse a refusal
